@@ -28,6 +28,7 @@
 #include <stdlib.h>
 #include <string.h>
 #include <sys/ioctl.h>
+#include <sys/mman.h>
 #include <sys/prctl.h>
 #include <sys/resource.h>
 #include <sys/socket.h>
@@ -112,6 +113,17 @@ static int read_all(int fd, void *d, size_t n)
     return 0;
 }
 
+/* accumulators that must not disturb the malloc statistics (sinks): raw mmap/mremap */
+static void mbuf_reserve(buf_t *b, size_t extra)
+{
+    if (b->len + extra <= b->cap) return;
+    size_t nc = b->cap ? b->cap : (1 << 20);
+    while (nc < b->len + extra) nc *= 2;
+    void *np = b->p ? mremap(b->p, b->cap, nc, MREMAP_MAYMOVE) : mmap(NULL, nc, PROT_READ | PROT_WRITE, MAP_PRIVATE | MAP_ANONYMOUS, -1, 0);
+    if (np == MAP_FAILED) _exit(97);
+    b->p = np; b->cap = nc;
+}
+
 /* ------------------------------------------------------------------ events */
 static pthread_mutex_t ev_mutex = PTHREAD_MUTEX_INITIALIZER;
 typedef struct { buf_t b; uint32_t nf; size_t nfpos; } ev_t;
@@ -177,7 +189,7 @@ static sink_t *sink_add(int type, const char *name, int fd, const char *path)
         fcntl(nf, F_SETFL, fl | O_NONBLOCK);
         s->fd = nf;
     }
-    buf_reserve(&s->acc, 1 << 16);
+    mbuf_reserve(&s->acc, 1 << 16);
     return s;
 }
 
@@ -212,14 +224,14 @@ static void sinks_drain(void)
         sink_t *s = &sinks[i];
         if (s->type == SK_STREAM) {
             for (;;) {
-                buf_reserve(&s->acc, 65536);
+                mbuf_reserve(&s->acc, 65536);
                 ssize_t r = h_read(s->fd, s->acc.p + s->acc.len, 65536);
                 if (r <= 0) break;
                 s->acc.len += (size_t) r;
             }
         } else if (s->type == SK_DGRAM) {
             for (;;) {
-                buf_reserve(&s->acc, (1 << 20) + 4200);
+                mbuf_reserve(&s->acc, (1 << 20) + 4200);
                 ssize_t r = recv(s->fd, s->acc.p + s->acc.len + 4, (1 << 20) + 4096, MSG_DONTWAIT);
                 if (r < 0) break;
                 uint32_t l = (uint32_t) r;
